@@ -61,7 +61,9 @@ theorem code_shape :
      Facts.Pipe.mikeyAnnouncesEverySSRC && Facts.Pipe.streamPlainBufferMinusSrtpOverhead &&
      Facts.Pipe.sessionPlainBufferMinusSrtpOverhead && Facts.Pipe.clientPlainBufferMinusSrtpOverhead &&
      Facts.Pipe.frameWrittenInOneWrite && Facts.Pipe.responseWrittenInOneWrite &&
-     Facts.Pipe.requestWrittenInOneWrite) = true ∧
+     Facts.Pipe.requestWrittenInOneWrite && Facts.Pipe.unmarshalStripsPadding &&
+     Facts.Pipe.refusedPauseRestartsWriter && Facts.Pipe.refusedPlayRestoresPrePlay &&
+     Facts.Pipe.refusedRecordRestoresPreRecord) = true ∧
     Facts.Pipe.interleavedMagic = 36 := by decide
 
 /-- **Isolation.**  A reader's state depends only on the writes and on its own events: what the other
